@@ -30,7 +30,8 @@ def describe(tier):
                 f"{b['redundant_n']} atoms wrapped in redundant brackets once and twice; (f) all 4^n atom-kind combinations "
                 f"([n] [nP] [nPa..b] [UBi]) for <= {b['kinds_n']} atoms over all chains; (g) long chains [atoms, max deviations] in {b['long']}: "
                 "one base operator spelling (each of the 10) everywhere except at the deviating positions (every position, "
-                "every other spelling) - deviation-bounded. Oracle: the tree returned by "
+                "every other spelling) - deviation-bounded; (h) ONE bracket pair at every position of 6-atom chains whose operator sequence deviates at <= 2 positions from "
+                "a base operator (thorough: all 6-atom chains, and 7-/8-atom chains with <= 2 deviations); (i) all bracketed strings with 2-4 atoms whose keys have different digit lengths (8..11, 98..101, 998..1001). Oracle: the tree returned by "
                 "parse_condition_expression_to_tree must be a binarisation of the n-ary precedence tree of the hand-written "
                 "reference parser R2 that never regroups across a bracket (for variants: of the BASE string's reference tree). "
                 "Non-trivial = at least two different operators or a bracket pair in the string.",
@@ -65,6 +66,17 @@ def plan(tier, seed):
     for n in range(1, b["ws_n"] + 1):
         for ops in itertools.product(S.OPS4, repeat=n - 1):
             items.append({"fam": "ws", "n": n, "ops": "".join(ops), "gaps": 3 if n < max(3, b["ws_n"]) else 2})
+    # (h) one bracket pair at every position of every 6-atom (thorough: 7-atom) chain
+    #     quick: operator sequences with <= 2 deviations from one base operator; thorough: all sequences for 6 atoms, <= 2 deviations
+    #     for 7 and 8 atoms
+    for n, full in ((6, False),) if tier == "quick" else ((6, True), (7, False), (8, False)):
+        for base in S.OPS4:
+            for first in range(n - 1):
+                items.append({"fam": "onebracket", "n": n, "base": base, "first": first, "full": full})
+    # (i) keys whose numbers have different digit lengths (8, 9, 10, 11 / 98 .. 101 / 998 .. 1001) in all bracketed strings
+    for base in (8, 98, 998):
+        for n, q in ((2, 0), (2, 1), (3, 0), (3, 1), (4, 0), (4, 1)) + (((3, 2), (4, 2)) if tier == "thorough" else ()):
+            items.append({"fam": "digits", "n": n, "q": q, "base": base})
     # (g) long chains, deviation bounded
     for n, maxdev in b["long"]:
         for base in range(10):
@@ -222,6 +234,43 @@ def run_item(item):
             for g1, g2, g3 in itertools.product(GAPS, repeat=3):
                 _do(r, f"[{g1}7P{g2}0..3{g3}]", base="[7P0..3]", fam="ws-pkg")
                 _do(r, f"[{g1}UB2{g3}]", base="[UB2]", fam="ws-time")
+    elif fam == "onebracket":
+        n = item["n"]
+        base, first = item["base"], item["first"]
+        seqs = set()
+        if item["full"]:
+            # all operator sequences whose FIRST non-base operator sits at position `first` (or none, for first == 0)
+            for ops in itertools.product(S.OPS4, repeat=n - 1):
+                dev = [k for k, o in enumerate(ops) if o != base]
+                if (dev and dev[0] == first) or (not dev and first == 0):
+                    seqs.add(ops)
+        else:
+            others = [o for o in S.OPS4 if o != base]
+            if first == 0:
+                seqs.add((base,) * (n - 1))
+            for o1 in others:
+                one = [base] * (n - 1)
+                one[first] = o1
+                seqs.add(tuple(one))
+                for p2 in range(first + 1, n - 1):
+                    for o2 in others:
+                        two = list(one)
+                        two[p2] = o2
+                        seqs.add(tuple(two))
+        for allops in sorted(seqs):
+            for i in range(n):
+                for j in range(i + 1, n):
+                    if i == 0 and j == n - 1:
+                        continue
+                    tmpl = ""
+                    for k in range(n):
+                        tmpl += ("(" if k == i else "") + "A" + (")" if k == j else "") + (allops[k] if k < n - 1 else "")
+                    _do(r, S.render(tmpl), fam="onebracket")
+    elif fam == "digits":
+        for tmpl in S.exprs_exact(item["n"], item["q"]):
+            atoms = [f"[{item['base'] + k}]" for k in range(item["n"])]
+            _do(r, S.render(tmpl, atoms=atoms), fam="digits")
+            _do(r, S.render(tmpl, atoms=atoms[::-1]), fam="digits")
     elif fam == "long":
         allsp = [("O", x) for x in S.SPELLINGS["O"]] + [("X", x) for x in S.SPELLINGS["X"]] + \
                 [("U", x) for x in S.SPELLINGS["U"]] + [("J", "")]
